@@ -143,35 +143,43 @@ def lean_obligations(rep):
         names += theorem_names(m)
     rep.obligations = [n for n, _, _ in names]
     rc, out = lake_build(mods + ['CoreBGP.AuditCmd'])
+    good_mods = list(mods)
     if rc:
-        # map error positions to theorems
-        failed = set()
-        located = False
-        for m in re.finditer(r'error: (\S+?\.lean):(\d+):(\d+):\s*(.*)', out):
-            f, line = m.group(1), int(m.group(2))
-            mod = f[:-5].replace('/', '.')
-            hit = False
-            for n, a, b in names:
-                if n.startswith(mod + '.') and a <= line <= b:
-                    failed.add(n)
-                    hit = True
-            located = located or hit
-            if not hit and mod not in mods:
-                failed.update(n for n, _, _ in names)   # a lemma module broke: nothing is known to hold
-                located = True
-        if not located:
-            failed.update(n for n, _, _ in names)
-        for n in sorted(failed):
-            rep.broken.append(('theorem', n, out[-3000:]))
-        rep.discharged = []
-        return driver_ok
+        # build module by module: what still builds is still audited and counted; in a module that does not build,
+        # error positions are mapped to theorems (an error outside every theorem, or in an imported lemma module,
+        # takes all theorems of that module with it)
+        good_mods = []
+        lake_build(['CoreBGP.AuditCmd'])
+        for m in mods:
+            rc1, out1 = lake_build([m])
+            if rc1 == 0:
+                good_mods.append(m)
+                continue
+            mine = [(n, a, b) for n, a, b in names if n.startswith(m + '.')]
+            failed = set()
+            for mm in re.finditer(r'error: (\S+?\.lean):(\d+):(\d+):\s*(.*)', out1):
+                f, line = mm.group(1), int(mm.group(2))
+                mod = f[:-5].replace('/', '.')
+                hit = [n for n, a, b in mine if mod == m and a <= line <= b]
+                if hit:
+                    failed.update(hit)
+                else:
+                    failed.update(n for n, _, _ in mine)
+            if not failed:
+                failed.update(n for n, _, _ in mine)
+            # theorems of this module that did not fail themselves cannot be checked either (the module has no olean)
+            for n, _, _ in mine:
+                rep.broken.append(('theorem', n, ('does not check: ' if n in failed else 'in a module that no longer builds: ') + out1[-1500:]))
+        if not good_mods:
+            rep.discharged = []
+            return driver_ok
     # audit axioms
     audit = os.path.join(WORK, f'audit_{rep.pid}.lean')
     with open(audit, 'w') as f:
         f.write('import CoreBGP.AuditCmd\n')
-        for m in mods:
+        for m in good_mods:
             f.write(f'import {m}\n')
-        for m in mods:
+        for m in good_mods:
             f.write(f'#audit_props {m}\n')
     rc, out = sh(['lake', 'env', 'lean', audit], cwd=LEAN, timeout=1800)
     rows = {}
@@ -186,6 +194,8 @@ def lean_obligations(rep):
     if rc:
         rep.broken.append(('audit', 'axiom audit failed to run', out[-2000:]))
     for n in rep.obligations:
+        if not any(n.startswith(m + '.') for m in good_mods):
+            continue
         r = rows.get(n)
         if r is None:
             rep.broken.append(('theorem', n, 'not found by the audit'))
@@ -196,7 +206,7 @@ def lean_obligations(rep):
             rep.axioms[n] = r['axioms']
     # thorough tier: independent re-check of the compiled modules with leanchecker
     if rep.tier == 'thorough':
-        rc, out = sh(['lake', 'env', 'leanchecker'] + mods, cwd=LEAN, timeout=3600)
+        rc, out = sh(['lake', 'env', 'leanchecker'] + good_mods, cwd=LEAN, timeout=3600)
         rep.extra['leanchecker'] = 'ok' if rc == 0 else 'FAILED: ' + out[-400:]
         if rc:
             rep.broken.append(('audit', 'leanchecker rejected the compiled modules', out[-1500:]))
@@ -663,6 +673,12 @@ def run_check(pid, tier, seed):
     rep = Report(pid, tier, seed)
     cfg = P.PROPS[pid]
     shutil.rmtree(COVDIR, ignore_errors=True)
+    # replay files of an earlier run of the same check are not this run's
+    for f in glob.glob(os.path.join(REPLAYS, f'{pid}-{seed}-*.json')):
+        try:
+            os.remove(f)
+        except OSError:
+            pass
     tools_ok = build_tools(rep)
     driver_ok = lean_obligations(rep)
     if tools_ok and driver_ok:
